@@ -245,7 +245,7 @@ func c17Decoders(c *run.C) {
 	all := append(append([]byte{}, in...), probe...)
 	useReader := r.Bool()
 	sizes := []int{r.Range(1, 9), r.Range(1, 50)}
-	buf := gen.Pick(r, []int{1, 3, 16, 64, 4096})
+	buf := gen.Pick(r, []int{0, 1, 3, 16, 64, 4096})
 	c.Begin(map[string]interface{}{"codec": cd.Name, "history": hx, "probe": hexs(probe), "reader": useReader, "sizes": sizes, "buf": buf})
 	fm := mon.NewMonitor()
 	var fd codec.Decoder
